@@ -39,3 +39,73 @@ Theorem C06_nongrant_revokes_all : forall s a,
   In (OUnsubEvent (can_get a)) o /\ has_event o = false /\ direct s' = 0 /\ reg s' = false /\ st s' = Disposed.
 Proof. exact nongrant_revokes_all. Qed.
 Print Assumptions C06_nongrant_revokes_all.
+
+(* Integrated model Comp/Core.v (connections x one flat resource, both task queues, token events, reaccess events; run in
+   lock-step with the real gateway on every check), every sequence of stimuli and scheduler grants. *)
+From RG Require Comp.Conv Comp.Core Proofs.CoreProofsG.
+
+(* A token event handled on a connection that already has a token and holds a subscription: the new token is in force, the
+   re-validation has started (the cached verdict is dropped, an access request is out) or the trigger is remembered because
+   the subscription is still queueing - and in both cases the subscription holds back every event from then on. *)
+Theorem C06_core_token_triggers_revalidation :
+  forall (val upd : Type) (app : upd -> val -> val) (norm : upd -> val -> option upd) (d : val),
+  (forall u v, norm u v = None -> app u v = v) ->
+  (forall u v u', norm u v = Some u' -> app u' v = app u v) ->
+  forall t ops c tk q i,
+  let s := fst (Core.exec val upd app norm d t ops) in
+  Core.cqueue (Core.conns val upd s c) = Core.QToken tk :: q -> Core.tokset (Core.conns val upd s c) = true ->
+  Core.cur (Core.conns val upd s c) = Some i -> 0 < Core.direct (Core.conns val upd s c) ->
+  let s' := fst (Core.step val upd app norm s (Core.GrantConn upd c)) in
+  Core.tok (Core.conns val upd s' c) = tk /\
+  (Core.rq (Core.insts val upd s' i) = true \/ Core.reflag (Core.insts val upd s' i) = true) /\
+  Conv.flag val upd (Conv.subs val upd (Core.cv val upd s') i) = true.
+Proof. exact CoreProofsG.core_token_triggers_revalidation. Qed.
+Print Assumptions C06_core_token_triggers_revalidation.
+
+(* While a re-validation is pending the subscription queues every event (nothing is delivered before the verdict), the
+   validation is registered, no verdict is cached and an access request is out. *)
+Theorem C06_core_revalidation_holds_events :
+  forall (val upd : Type) (app : upd -> val -> val) (norm : upd -> val -> option upd) (d : val),
+  (forall u v, norm u v = None -> app u v = v) ->
+  (forall u v u', norm u v = Some u' -> app u' v = app u v) ->
+  forall t ops i,
+  let s := fst (Core.exec val upd app norm d t ops) in
+  Core.rq (Core.insts val upd s i) = true -> Conv.gone val upd (Conv.subs val upd (Core.cv val upd s) i) = false ->
+  Conv.flag val upd (Conv.subs val upd (Core.cv val upd s) i) = true /\ In Core.AVal (Core.acb (Core.insts val upd s i)) /\
+  Core.acc (Core.insts val upd s i) = None /\ Core.inflight (Core.insts val upd s i) = true.
+Proof. exact CoreProofsG.core_revalidation_holds_events. Qed.
+Print Assumptions C06_core_revalidation_holds_events.
+
+(* Once nothing is left to do, no re-validation is pending or remembered and every subscription held is backed by a grant. *)
+Theorem C06_core_quiescent_validated :
+  forall (val upd : Type) (app : upd -> val -> val) (norm : upd -> val -> option upd) (d : val),
+  (forall u v, norm u v = None -> app u v = v) ->
+  (forall u v u', norm u v = Some u' -> app u' v = app u v) ->
+  forall t ops c i,
+  let s := fst (Core.exec val upd app norm d t ops) in
+  Core.quiescent val upd s -> Core.cur (Core.conns val upd s c) = Some i ->
+  Core.rq (Core.insts val upd s i) = false /\ Core.reflag (Core.insts val upd s i) = false /\ Core.acb (Core.insts val upd s i) = [] /\
+  (0 < Core.direct (Core.conns val upd s c) -> Core.acc (Core.insts val upd s i) = Some true).
+Proof. exact CoreProofsG.core_quiescent_validated. Qed.
+Print Assumptions C06_core_quiescent_validated.
+
+(* A re-validation answered with anything but a grant: the connection is left without the subscription (count 0, the
+   Subscription object disposed), exactly one unsubscribe event is sent if it held direct subscriptions, and none of the
+   events held back during the re-validation is delivered. *)
+Theorem C06_core_denied_revalidation_revokes :
+  forall (val upd : Type) (app : upd -> val -> val) (norm : upd -> val -> option upd) (d : val),
+  (forall u v, norm u v = None -> app u v = v) ->
+  (forall u v u', norm u v = Some u' -> app u' v = app u v) ->
+  forall t ops c i q,
+  let s := fst (Core.exec val upd app norm d t ops) in
+  Core.cqueue (Core.conns val upd s c) = Core.QAccess i :: q ->
+  Conv.gone val upd (Conv.subs val upd (Core.cv val upd s) i) = false -> Core.ans (Core.insts val upd s i) = Some false ->
+  In Core.AVal (Core.acb (Core.insts val upd s i)) ->
+  let '(s', o) := Core.step val upd app norm s (Core.GrantConn upd c) in
+  Core.cur (Core.conns val upd s' c) = None /\ Core.direct (Core.conns val upd s' c) = 0 /\
+  Conv.gone val upd (Conv.subs val upd (Core.cv val upd s') i) = true /\
+  (0 < Core.direct (Core.conns val upd s c) ->
+   Core.count_out val upd (fun o => match o with Core.OUnsubEv _ _ c' => Nat.eqb c' c | _ => false end) o = 1) /\
+  (forall o', In o' o -> match o' with Core.OEvent _ _ _ _ | Core.OCustom _ _ _ => False | _ => True end).
+Proof. exact CoreProofsG.core_denied_revalidation_revokes. Qed.
+Print Assumptions C06_core_denied_revalidation_revokes.
